@@ -351,7 +351,9 @@ func TestC19Headers(t *testing.T) {
 				}
 				f.Val = strings.TrimSpace(rapid.OneOf(rapid.SampledFrom([]string{"1", "a:b", "Token x y", "http://h:80/p?q", "é", "\"etag\"", "W/\"x\"", "'q'", "`raw`", "\"a\\tb\"", "','"}), rapid.StringMatching(`[!-~][ -~]{0,10}[!-~]`)).Draw(t, "v"))
 				keys = append(keys, f.Key)
-				sp := func(l string) string { return rapid.SampledFrom([]string{"", " ", "  ", "\t"}).Draw(t, l) }
+				sp := func(l string) string {
+					return rapid.SampledFrom([]string{"", "", " ", "  ", "\t", "\r", " \r", "\u00a0", "\v", "\f", "\u2003"}).Draw(t, l)
+				} // (a line read from a CR LF file, pasted from a web page)
 				f.Text = sp("a") + f.Key + sp("b") + ":" + sp("c") + f.Val + sp("d")
 			}
 			c.Flags = append(c.Flags, f)
